@@ -71,6 +71,10 @@ type ConnSpec struct {
 type Case struct {
 	ID      int        `json:"id"`
 	Trip    bool       `json:"trip"` // trip the circuit breaker of conns[0] first
+	// free-running: every transaction on a goroutine of its own, all released at once, no gates; the
+	// driver serialises its calls with a mutex and cannot tell who calls Begin / Commit / Rollback
+	// (logged with transaction -1: the checker attributes them through the connection)
+	Free bool `json:"free"`
 	Conns   []ConnSpec `json:"conns"`
 	Threads []Thread   `json:"threads"`
 	Sched   []int      `json:"sched"`
@@ -203,11 +207,37 @@ type plan struct {
 	stmtErr map[string]error
 	fail    string
 	cancel  func(tid int) // cancels the context of that thread's TransactCtx call
-	failed  bool          // a driver call has failed since the flag was last cleared
-	lastVal []string      // ... with this error value (kind, mode)
+	failed  map[int]bool     // per transaction: a driver call has failed since the flag was last cleared
+	lastVal map[int][]string // ... with this error value (kind, mode)
+	mu      sync.Mutex    // free-running cases: serialises the driver
+	free    bool
 }
 
 var curPlan atomic.Pointer[plan]
+
+func (p *plan) clearFailed(t int) {
+	if p.free {
+		p.mu.Lock()
+		defer p.mu.Unlock()
+	}
+	p.failed[t] = false
+}
+
+func (p *plan) hasFailed(t int) bool {
+	if p.free {
+		p.mu.Lock()
+		defer p.mu.Unlock()
+	}
+	return p.failed[t]
+}
+
+func (p *plan) lastOf(t int) []string {
+	if p.free {
+		p.mu.Lock()
+		defer p.mu.Unlock()
+	}
+	return p.lastVal[t]
+}
 
 func (p *plan) next() string {
 	i := p.used
@@ -224,6 +254,14 @@ func (p *plan) next() string {
 // would answer them with driver calls of its own: ErrBadConn from Stmt.Exec (it repeats the
 // call), the bare ErrSkip from ExecContext / QueryContext (it prepares the statement).
 func (p *plan) call(conn int, kind string, k int, role error) (string, error) {
+	return p.callAs(p.cur, conn, kind, k, role)
+}
+
+func (p *plan) callAs(tid, conn int, kind string, k int, role error) (string, error) {
+	if p.free {
+		p.mu.Lock()
+		defer p.mu.Unlock()
+	}
 	rep := p.next()
 	val := ""
 	if i := strings.IndexByte(rep, ':'); i >= 0 {
@@ -232,7 +270,7 @@ func (p *plan) call(conn int, kind string, k int, role error) (string, error) {
 	o := rep
 	if strings.HasSuffix(o, "+c") {
 		o = strings.TrimSuffix(o, "+c")
-		if kind != "query" && p.cancel != nil {
+		if kind != "query" && p.cancel != nil && !p.free {
 			p.cancel(p.cur)
 		}
 	}
@@ -250,10 +288,10 @@ func (p *plan) call(conn int, kind string, k int, role error) (string, error) {
 			vm = "wrap"
 		}
 		err = mkErr(role, vk, vm)
-		p.failed = true
-		p.lastVal = []string{vk, vm}
+		p.failed[tid] = true
+		p.lastVal[tid] = []string{vk, vm}
 	}
-	p.log = append(p.log, []any{p.cur, conn, kind, k, o, vk, vm})
+	p.log = append(p.log, []any{tid, conn, kind, k, o, vk, vm})
 	return o, err
 }
 
@@ -284,6 +322,10 @@ func (fdriver) Open(dsn string) (driver.Conn, error) {
 
 func newConn(dsn string) *fconn {
 	p := curPlan.Load()
+	if p.free {
+		p.mu.Lock()
+		defer p.mu.Unlock()
+	}
 	p.nextID++
 	return &fconn{p: p, id: p.nextID}
 }
@@ -320,10 +362,26 @@ func (c *fconn) stmt(kind, q string) error {
 		p.fail = err.Error()
 		return err
 	}
+	if p.free {
+		return c.freeStmt(kind, tid, k)
+	}
 	if tid != p.cur {
 		p.fail = fmt.Sprintf("statement %q issued while thread %d was running", q, p.cur)
 	}
 	if o, err := p.call(c.id, kind, k, p.stmtError(tid, k)); o != "ok" {
+		return err
+	}
+	return nil
+}
+
+// freeStmt: a statement of a free-running case; the transaction is read off the query text.
+func (c *fconn) freeStmt(kind string, tid, k int) error {
+	p := c.p
+	p.mu.Lock()
+	role := p.stmtError(tid, k)
+	p.mu.Unlock()
+	o, err := p.callAs(tid, c.id, kind, k, role)
+	if o != "ok" {
 		return err
 	}
 	return nil
@@ -481,6 +539,9 @@ func (r *runner) setup() {
 
 func (r *runner) gate(t int) {
 	th := r.threads[t]
+	if r.c.Free {
+		return
+	}
 	if th.nogate {
 		// run inline from the body of another transaction: the quanta are recorded as they happen
 		r.esched = append(r.esched, t)
@@ -646,6 +707,10 @@ func (r *runner) threadMain(t int) {
 func (r *runner) finish(t int) {
 	th := r.threads[t]
 	out := &th.out
+	if r.c.Free {
+		r.p.mu.Lock()
+		defer r.p.mu.Unlock()
+	}
 	out.InUse = r.inUse()
 	// the breaker's verdict on the call is asked for (a) with the very error that is returned and
 	// (b) once the transaction is over: after the last driver call made on its behalf
@@ -823,7 +888,7 @@ func (r *runner) body(t int) func(context.Context, sqlx.Session) error {
 		}
 		for k, st := range sp.Steps {
 			r.gate(t)
-			r.p.failed = false
+			r.p.clearFailed(t)
 			var err error
 			switch st.Act {
 			case "stmt":
@@ -847,13 +912,13 @@ func (r *runner) body(t int) func(context.Context, sqlx.Session) error {
 			switch st.OnFail {
 			case "stop":
 				switch {
-				case r.p.failed && st.Act == "selfcommit":
-					out.Body = []any{"selfc", k, r.p.lastVal[0], r.p.lastVal[1]}
-				case r.p.failed && st.Act == "selfrollback":
-					out.Body = []any{"selfr", k, r.p.lastVal[0], r.p.lastVal[1]}
-				case r.p.failed:
+				case r.p.hasFailed(t) && st.Act == "selfcommit":
+					out.Body = []any{"selfc", k, r.p.lastOf(t)[0], r.p.lastOf(t)[1]}
+				case r.p.hasFailed(t) && st.Act == "selfrollback":
+					out.Body = []any{"selfr", k, r.p.lastOf(t)[0], r.p.lastOf(t)[1]}
+				case r.p.hasFailed(t):
 					// the driver failed the step
-					out.Body = []any{"stmt", k, r.p.lastVal[0], r.p.lastVal[1]}
+					out.Body = []any{"stmt", k, r.p.lastOf(t)[0], r.p.lastOf(t)[1]}
 				case errors.Is(err, context.Canceled), errors.Is(err, context.DeadlineExceeded):
 					// refused by database/sql before the driver
 					out.Body = []any{"ctx", k}
@@ -906,7 +971,7 @@ func (r *runner) body(t int) func(context.Context, sqlx.Session) error {
 
 func runCase(c Case) (out Out) {
 	out.ID = c.ID
-	p := &plan{c: &c, stmtErr: map[string]error{}, armed: false, cur: -1}
+	p := &plan{c: &c, stmtErr: map[string]error{}, armed: false, cur: -1, failed: map[int]bool{}, lastVal: map[int][]string{}}
 	curPlan.Store(p)
 	r := &runner{c: &c, p: p, parked: make(chan struct{})}
 	p.cancel = func(tid int) {
@@ -939,6 +1004,36 @@ func runCase(c Case) (out Out) {
 		}
 	}
 	p.armed = true
+	if c.Free {
+		p.free, p.cur = true, -1
+		start := make(chan struct{})
+		for t := range r.threads {
+			th := r.threads[t]
+			th.nogate = true
+			th.out.Started = true
+			go func(t int) {
+				<-start
+				r.threadMain(t)
+			}(t)
+		}
+		close(start)
+		for _, th := range r.threads {
+			select {
+			case <-th.done:
+			case <-time.After(30 * time.Second):
+				out.Fail = "free-running transaction did not end"
+				return
+			}
+		}
+		out.Log = p.log
+		out.ESched = []int{}
+		out.Used = p.used
+		out.InUse = r.inUse()
+		for _, th := range r.threads {
+			out.Threads = append(out.Threads, th.out)
+		}
+		return
+	}
 	ok := true
 	for _, t := range c.Sched {
 		if t < 0 || t >= len(r.threads) {
